@@ -147,6 +147,52 @@ end Aiocoap.Codec
 
 namespace Aiocoap.Codec
 
+open Rfc7252
+
+/-- the accepted language: an RFC datagram, or one of the three leniencies of the code -/
+theorem decode_accepted {raw : Bytes} {m : Msg} (hw : raw.wf) (h : decode raw = .ok m) :
+    Datagram raw m ∨
+    (∃ pre, raw = pre ++ [0xFF] ∧ Datagram pre m) ∨
+    (∃ vttkl rest, raw = vttkl :: rest ∧ (8 < vttkl % 16 ∨ rest.length < 3 + vttkl % 16)) := by
+  obtain ⟨vttkl, code, m1, m0, rest, ob, tail, rfl, hv, hsplit, hol, htail, hm⟩ := decode_inv hw h
+  rw [Bytes.wf_cons, Bytes.wf_cons, Bytes.wf_cons, Bytes.wf_cons] at hw
+  obtain ⟨hb, hc, h1, h0, hwrest⟩ := hw
+  by_cases hk : 8 < vttkl % 16
+  · exact .inr (.inr ⟨vttkl, _, rfl, .inl hk⟩)
+  by_cases hlen : rest.length < vttkl % 16
+  · refine .inr (.inr ⟨vttkl, _, rfl, .inr ?_⟩)
+    simp only [List.length_cons]; omega
+  have hrest : rest = rest.take (vttkl % 16) ++ ob ++ tail := by
+    rw [List.append_assoc, ← hsplit, List.take_append_drop]
+  have htl : (rest.take (vttkl % 16)).length = vttkl % 16 := by
+    simp only [List.length_take]; omega
+  have hwd : Bytes.wf (ob ++ tail) := by rw [← hsplit]; exact Bytes.wf_drop _ hwrest
+  have hvt : vttkl = 1 * 64 + vttkl / 16 % 4 * 16 + vttkl % 16 := by omega
+  have hmid1 : (m1 * 256 + m0) / 256 = m1 := by omega
+  have hmid0 : (m1 * 256 + m0) % 256 = m0 := by omega
+  have mk := fun (tl pl : Bytes) (hpp : PayloadPart tl pl) =>
+    Datagram.mk (t := vttkl / 16 % 4) (tkl := vttkl % 16) (code := code) (mid := m1 * 256 + m0)
+      (token := rest.take (vttkl % 16)) (ob := ob) (tail := tl) (payload := pl) (os := m.opts)
+      (by omega) (by omega) hc (by omega) htl (Bytes.wf_take _ hwrest) hol hpp
+  rw [hmid1, hmid0, ← hvt] at mk
+  rcases htail with ⟨rfl, hpl⟩ | htl'
+  · left
+    have := mk [] [] .absent
+    rw [← hrest, ← hpl, ← hm] at this
+    exact this
+  · by_cases hpe : m.payload = []
+    · right; left
+      refine ⟨vttkl :: code :: m1 :: m0 :: (rest.take (vttkl % 16) ++ ob ++ []), ?_, ?_⟩
+      · rw (occs := [1]) [hrest, htl', hpe]; simp
+      · have := mk [] [] .absent
+        rw [hpe] at hm
+        rw [← hm] at this
+        exact this
+    · left
+      have := mk tail m.payload (by rw [htl']; exact .present hpe (tailOf_wf (.inr htl') (Bytes.wf_append.1 hwd).2))
+      rw [← hrest, ← hm] at this
+      exact this
+
 /-- "any message the library can represent" in the sense of C01: type, code 0..255, 16-bit
 message ID, token of 0..8 bytes, payload bytes, and options whose values are legal for their
 format and whose deltas / value lengths (taken in `option_list()` order) fit the extended
